@@ -266,7 +266,8 @@ func buildCases(seed int64, thorough bool) []caseSpec {
 			}
 		}
 		// ---- special scripted scenarios
-		for _, name := range []string{"server.Close/unaccepted-holder", "server.Close/accept-blocked", "send-after-close", "double-close", "server.Close/after-MaxConnections-accepts"} {
+		for _, name := range []string{"server.Close/unaccepted-holder", "server.Close/accept-blocked", "server.ctx/accept-blocked", "send-after-close", "double-close", "server.Close/after-MaxConnections-accepts",
+			"ConnectAndInit-failed/no-answer", "ConnectAndInit-failed/unexpected-authenticate", "ConnectAndInit-failed/unexpected-authenticate-libserver", "ConnectAndInit-failed/error-response"} {
 			add(caseSpec{Class: "special", Name: name, Setup: "lib-lib", Version: 4})
 		}
 		// ---- rendezvous scenarios (deterministic orderings forced through the log hook)
